@@ -51,3 +51,47 @@ Definition tree_report :=
 (* the (field, mutex) guard pairs of every service *)
 Definition tree_guards :=
   map (fun '(n, g, e, _, _) => (n, guard_table (graph_accesses g e))) services.
+
+(* ------------------------------------------------------------------------------------------ *)
+(* detailed report for bin/c17-report: node indices (mapped to file:line by the translator's meta file) *)
+
+Fixpoint accesses_idx (ls : assignment) (n : nat) (g : graph) : list (nat * access) :=
+  match g with
+  | [] => []
+  | nd :: g' =>
+      match n_instr nd, nth n ls None with
+      | IAcc f w, Some L => (n, (f, w, L, n_owner nd)) :: accesses_idx ls (S n) g'
+      | _, _ => accesses_idx ls (S n) g'
+      end
+  end.
+
+Definition conflicts_idx (sk : field -> bool) (sg : nat -> bool) (g : graph) (e : list nat) : list (nat * nat) :=
+  let A := accesses_idx (infer g e) 0 g in
+  flat_map (fun a1 => map (fun a2 => (fst a1, fst a2))
+                        (filter (fun a2 => (fst a1 <=? fst a2)%nat && negb (conflict_free sk sg (snd a1) (snd a2))) A)) A.
+
+Fixpoint order_bad_from (rk : list (mutex * nat)) (ls : assignment) (n : nat) (g : graph) : list nat :=
+  match g with
+  | [] => []
+  | nd :: g' =>
+      match n_instr nd, nth n ls None with
+      | ILock m _, Some L =>
+          if forallb (fun p => (rank_of rk (fst p) <? rank_of rk m)%nat) L then order_bad_from rk ls (S n) g'
+          else n :: order_bad_from rk ls (S n) g'
+      | _, _ => order_bad_from rk ls (S n) g'
+      end
+  end.
+
+Definition undisciplined (sk : field -> bool) (sg : nat -> bool) (A : list access) : list field :=
+  filter (fun f => negb (sk f || confined sg A f || existsb (fun m => writes_guarded A f m) (mutexes_of A))) (fields_of A).
+
+(* per service: accepted?, nodes whose lock-set check fails (with the lock set inferred on entry),
+   conflicting access pairs, fields without a write guard, acquisitions against the lock order *)
+Definition tree_details :=
+  map (fun '(n, g, e, sk, sg) =>
+         let ls := infer g e in
+         (n, analysis_ok sk sg g e && discipline_ok sk sg (graph_accesses g e) && lock_order_ok g e,
+          map (fun b => (b, nth b ls None)) (firstn 8 (bad_nodes_from ls 0 g)),
+          firstn 12 (conflicts_idx sk sg g e),
+          undisciplined sk sg (graph_accesses g e),
+          firstn 8 (order_bad_from (infer_ranks g e) ls 0 g))) services.
